@@ -99,6 +99,20 @@ func genListPair(t *rapid.T, strs bool) (interface{}, interface{}) {
 	for i, v := range b {
 		sb[i] = elemStr(v)
 	}
+	if la > 0 && lb > 0 && rapid.IntRange(0, 7).Draw(t, "emptyelem") == 0 {
+		// the empty string is an element like any other: at the head or the tail of either list, shared or not
+		pa := []int{0, la - 1}[rapid.IntRange(0, 1).Draw(t, "ee_pa")]
+		pb := []int{0, lb - 1}[rapid.IntRange(0, 1).Draw(t, "ee_pb")]
+		switch rapid.IntRange(0, 2).Draw(t, "ee_where") {
+		case 0:
+			sa[pa], sb[pb] = "", ""
+		case 1:
+			sa[pa] = ""
+		default:
+			sb[pb] = ""
+		}
+		return sa, sb
+	}
 	switch rapid.IntRange(0, 5).Draw(t, "longelems") {
 	case 0:
 		return longElems(sa), longElems(sb)
